@@ -226,7 +226,10 @@ func e2eRun(p *Plan) (r *c10Result, probes map[string]int) {
 		case op.P == "malformed":
 			cr.Kind = "malformed:" + c10MalformKinds[umod(op.PV, len(c10MalformKinds))]
 			cr.Body = c10Malform(strings.TrimPrefix(cr.Kind, "malformed:"), cr.Body, rng)
-			cr.Want = "malformed"
+			cr.Want = "any"
+			if refBodyMalformed(cr.Body) {
+				cr.Want = "malformed"
+			}
 		case !strings.Contains(string(req.CP), "\n"):
 			cr.Want = "malformed"
 		case target == nil:
